@@ -147,7 +147,8 @@ def gen(rng, tier):
         if faults and r < 0.16:
             cands = [i for i, k in kinds if k in MUTABLE]
             if cands:
-                ops.append({"op": "mutate", "on": rng.pick(cands), "arg": [rng.randrange(6) for _ in range(4)]})
+                ops.append({"op": "mutate", "on": rng.pick(cands), "arg": [rng.randrange(6) for _ in range(4)],
+                            "obs": rng.chance(0.5)})
                 continue
         if faults and r < 0.24:
             cands = [i for i, k in kinds if k in ("fa", "cfg", "fst")]
@@ -211,10 +212,11 @@ def _scenario(rng, pool, kinds, nid, faults):
         kinds.append((nid, k))
         nid += 1
         return nid - 1
-    mut = lambda on, which: {"op": "mutate", "on": on, "arg": [which, rng.randrange(6), rng.randrange(6), rng.randrange(6)]}
+    mut = lambda on, which, obs=None: {"op": "mutate", "on": on, "obs": rng.chance(0.5) if obs is None else obs,
+                                       "arg": [which, rng.randrange(6), rng.randrange(6), rng.randrange(6)]}
     arg = lambda: rng.randrange(len(PROBE))
     t = rng.pick(["reintersect", "regex_family", "eps_edit", "fst_grow", "pda_alias", "ig_edit", "cfg_requery",
-                  "double_intersection", "fa_requery"])
+                  "double_intersection", "fa_requery", "pda_reintersect", "pda_reconvert"])
     ops = []
     if t == "reintersect":
         g = need("cfg")
@@ -289,15 +291,39 @@ def _scenario(rng, pool, kinds, nid, faults):
         g = new("cfg")
         ops.append({"op": "pda.to_cfg", "on": p_, "arg": 0, "new": g})
         ops.append({"op": "cfg.words", "on": g, "arg": 0})
+    elif t == "pda_reintersect":
+        p_, a = need("pda"), need("fa")
+        ops.append({"op": "pda.intersection", "on": p_, "other": a, "arg": 0, "new": new("pda")})
+        if faults:
+            for _ in range(rng.randint(1, 2)):
+                ops.append(mut(p_, rng.pick([2, 2, 0]), obs=False))
+        ops.append({"op": "pda.intersection", "on": p_, "other": a, "arg": 0, "new": new("pda")})
+    elif t == "pda_reconvert":
+        p_ = need("pda")
+        ops.append({"op": "pda.to_cfg", "on": p_, "arg": 0, "new": new("cfg")})
+        if faults:
+            ops.append(mut(p_, rng.pick([3, 4, 2, 0]), obs=False))
+        g2 = new("cfg")
+        ops.append({"op": "pda.to_cfg", "on": p_, "arg": 0, "new": g2})
+        ops.append({"op": "cfg.words", "on": g2, "arg": 0})
+        q = new("pda")
+        ops.append({"op": rng.pick(["pda.to_final_state", "pda.to_empty_stack"]), "on": p_, "arg": 0, "new": q})
+        ops.append({"op": rng.pick(["pda.to_final_state", "pda.to_empty_stack"]), "on": q, "arg": 0, "new": new("pda")})
     elif t == "ig_edit":
         i = need("ig")
         ops.append({"op": "ig.is_empty", "on": i, "arg": 0})
-        if faults:
-            ops.append(mut(i, 0))
-        ops.append({"op": "ig.is_empty", "on": i, "arg": 0})
-        if faults:
-            ops.append(mut(i, 1))
-        ops.append({"op": "ig.is_empty", "on": i, "arg": 0})
+        if faults and rng.chance(0.5):
+            # two edits in a row, no query in between
+            for w in rng.pick([[0, 1], [1, 0], [0, 1, 1], [0, 0, 1]]):
+                ops.append(mut(i, w, obs=False))
+            ops.append({"op": "ig.is_empty", "on": i, "arg": 0})
+        else:
+            if faults:
+                ops.append(mut(i, 0))
+            ops.append({"op": "ig.is_empty", "on": i, "arg": 0})
+            if faults:
+                ops.append(mut(i, 1))
+            ops.append({"op": "ig.is_empty", "on": i, "arg": 0})
     elif t == "cfg_requery":
         g = need("cfg")
         for name in rng.sample(["cfg.contains", "cfg.generate_epsilon", "cfg.symbols", "cfg.words", "cfg.is_empty",
@@ -422,10 +448,27 @@ def apply_mutator(kind, obj, arg):
     if kind == "pda":
         sts = _sorted_vals([s.value for s in obj.states]) or ["m0"]
         sks = _sorted_vals([s.value for s in obj.stack_symbols]) or ["Z"]
-        if a0 % 2 == 0:
+        if a0 % 5 == 3:
+            obj.set_start_state(sts[a1 % len(sts)])
+            return "set_start_state"
+        if a0 % 5 == 4:
+            obj.set_start_stack_symbol(sks[a2 % len(sks)])
+            return "set_start_stack_symbol"
+        if a0 % 5 == 0:
             obj.add_transition(sts[a1 % len(sts)], TOK[a3 % 2], sks[a2 % len(sks)], sts[a2 % len(sts)],
                                [sks[a1 % len(sks)]] * (a3 % 3))
             return "add_transition"
+        if a0 % 5 == 2:
+            # a further alternative under a (state, input, stack symbol) key that already has a transition
+            from pyformlang.pda import Epsilon as PEps
+            keys = sorted(((_skey(k[0].value), "" if isinstance(k[1], PEps) else str(k[1].value), _skey(k[2].value)), k)
+                          for k in obj.to_dict())
+            if not keys:
+                return None
+            _, k = keys[a1 % len(keys)]
+            obj.add_transition(k[0].value, "epsilon" if isinstance(k[1], PEps) else k[1].value, k[2].value,
+                               sts[a2 % len(sts)], [sks[a3 % len(sks)]] * (1 + a3 % 2))
+            return "add_transition(existing key)"
         obj.add_final_state(sts[a1 % len(sts)])
         return "add_final_state"
     if kind == "fst":
@@ -823,9 +866,10 @@ def run(case, out):
                 e.muts.append(op["arg"])
             is_alias = e.recipe[0] != "build"
             out.fault("alias_mutation" if is_alias else "operand_mutation")
-            # I2 right after the edit: the live object answers like a fresh object with the same edits
+            # I2 right after the edit: the live object answers like a fresh object with the same edits.  Only after
+            # some edits (op["obs"]): querying after *every* edit would hide defects that need two edits in a row
             try:
-                ol = observe(e.kind, e.obj, out)
+                ol = observe(e.kind, e.obj, out) if op.get("obs", True) else None
                 of = observe(e.kind, fresh(on), out) if ol is not None else None
             except Exception:
                 ol = of = None
